@@ -27,7 +27,7 @@ type Stmt struct {
 	Actions []*Action `json:"actions,omitempty"`
 	Inv     []*Stmt   `json:"inv,omitempty"`
 	HasInv  bool      `json:"hasinv,omitempty"`
-	SM      string    `json:"sm,omitempty"` // state machine built with StateMachineActions on this menu type
+	SM      string    `json:"sm,omitempty"`  // state machine built with StateMachineActions on this menu type
 	Raw     []byte    `json:"raw,omitempty"` // log: payload (repeated Rep times) instead of the synthetic one
 	Rep     int       `json:"rep,omitempty"`
 }
@@ -208,6 +208,10 @@ func (x *Interp) Begin(t *rapid.T) *Invocation {
 func (x *Interp) Finish() {
 	if x.cur != nil && !x.cur.Done {
 		inv := x.cur
+		// by now the library has run the cleanups of this invocation: every context handed out must be cancelled
+		for _, sc := range inv.scopes {
+			x.sampleCtxs(sc, "final")
+		}
 		inv.finalize()
 		var keyed int64
 		for _, sc := range inv.scopes {
@@ -299,7 +303,9 @@ func (x *Interp) execStmt(fr *frame, st *Stmt) {
 	switch st.Op {
 	case "draw":
 		g := fr.sc.subs[st.Gen]
+		x.ev(Event{K: "dbeg", Scope: fr.sc.id})
 		v := g.Draw(t, st.Label)
+		x.ev(Event{K: "dret", Scope: fr.sc.id})
 		x.recordDraw(fr.sc, st.Label, v, st.Gen)
 	case "if":
 		if st.Cond.eval(fr.sc.draws) {
